@@ -11,6 +11,11 @@ together with the corresponding `absTerms` (the scale of the error bound).
 import Mathlib.Data.Nat.Cast.Field
 import CompmechVerif.Core.CExprLemmas
 
+set_option linter.unusedSectionVars false
+set_option linter.unusedSimpArgs false
+set_option linter.unnecessarySeqFocus false
+set_option linter.unusedVariables false
+
 namespace Compmech.C10
 open Compmech IPoly
 
